@@ -46,6 +46,15 @@ func (c *Component) onLCPUp(s *Session) {
 
 // onLCPDown is called with s.mu held.
 func (c *Component) onLCPDown(s *Session) {
+	// This-layer-down of LCP is the Down event of the NCPs (RFC 1661
+	// section 4.4): they must not stay Opened, retransmit or keep
+	// negotiating over a link that is being renegotiated or terminated.
+	if s.IPCP != nil {
+		s.IPCP.FSM().Down()
+	}
+	if s.IPv6CP != nil {
+		s.IPv6CP.FSM().Down()
+	}
 	s.Phase = ppp.PhaseEstablish
 }
 
